@@ -722,6 +722,23 @@ fn main() {
             "C10" => vec![("trailer_count", j(&format!("[{ok_run},{{\"status_is\":\"modified\"}},{{\"map_invalid\":true}}]")))],
             "C14" => vec![("literals_changed_by_instrumentation", j(&format!("[{ok_run},{{\"literals_changed_by_instrumentation\":true}}]"))), ("literal_not_at_reported_position", j(&format!("[{ok_run},{{\"literal_not_at_reported_position\":true}}]")))],
             "C13" => vec![("panics", j(r#"[{"panics":true}]"#))],
+            // execution equivalence / hook arguments: for programs that come with a driver expression
+            "C02" | "C03" | "C06" => {
+                let mut v = vec![];
+                let mut driver: Option<String> = None;
+                for c in &w.violated_when {
+                    if let Some(o) = c.as_object() {
+                        for k in ["exec_differs", "hook_args_wrong"] {
+                            if let Some(d) = o.get(k).and_then(|x| x.as_str()) { driver = Some(d.to_string()); }
+                        }
+                    }
+                }
+                if let Some(d) = driver {
+                    v.push(("exec_differs", vec![serde_json::json!({"exec_differs": d})]));
+                    if prop == "C03" { v.push(("hook_args_wrong", vec![serde_json::json!({"hook_args_wrong": d})])); }
+                }
+                v
+            }
             other => panic!("no generic oracles for {other}"),
         };
         all = false;
